@@ -302,3 +302,46 @@ func (s *Server) aofshrink() {
 		return
 	}
 }
+
+// shrinklogRename records a RENAME that was applied while the aof is being
+// rewritten. The rewrite scans the collections in key order while commands keep
+// arriving, and replays those commands at the end of the new file. That works
+// for commands that carry their own data, but the outcome of a rename depends
+// on what the new file holds for the source key at that moment: when the scan
+// has already passed the destination key and not yet reached the source key,
+// the renamed collection is never written and the replayed rename finds
+// nothing to rename. Record the outcome instead of the command: both keys
+// dropped, followed by every object of the renamed collection.
+func (s *Server) shrinklogRename(d *commandDetails) {
+	s.shrinklog = append(s.shrinklog,
+		[]string{"drop", d.key}, []string{"drop", d.newKey})
+	col, ok := s.cols.Get(d.newKey)
+	if !ok {
+		return
+	}
+	now := time.Now().UnixNano()
+	col.Scan(false, nil, nil, func(o *object.Object) bool {
+		values := []string{"set", d.newKey, o.ID()}
+		o.Fields().Scan(func(f field.Field) bool {
+			if !f.Value().IsZero() {
+				values = append(values, "field", f.Name(), f.Value().JSON())
+			}
+			return true
+		})
+		if o.Expires() != 0 {
+			ttl := math.Floor(float64(o.Expires()-now)/float64(time.Second)*10) / 10
+			if ttl < 0.1 {
+				// always leave a little bit of ttl.
+				ttl = 0.1
+			}
+			values = append(values, "ex", strconv.FormatFloat(ttl, 'f', -1, 64))
+		}
+		if objIsSpatial(o.Geo()) {
+			values = append(values, "object", string(o.Geo().AppendJSON(nil)))
+		} else {
+			values = append(values, "string", o.Geo().String())
+		}
+		s.shrinklog = append(s.shrinklog, values)
+		return true
+	})
+}
